@@ -573,8 +573,10 @@ def write_evidence(prop, tier, seed, cts, per_contract, obligations, n_obl, n_di
         wall_s=round(wall, 2),
         violations=n_viol,
     )
-    os.makedirs(os.path.join(ROOT, "evidence"), exist_ok=True)
-    path = os.path.join(ROOT, "evidence", prop + ".json")
+    # a run pointed at another checkout (PVC_REPO: seeded changes, experiments) does not overwrite the evidence of /repo
+    edir = os.path.join(ROOT, "evidence", "_other_checkout") if os.environ.get("PVC_REPO") else os.path.join(ROOT, "evidence")
+    os.makedirs(edir, exist_ok=True)
+    path = os.path.join(edir, prop + ".json")
     try:
         import jsonschema
         schema = json.load(open("/root/.vp/EVIDENCE.schema.json"))
